@@ -138,6 +138,7 @@ Definition hook_reject_leaves_residue_counterexample := DurableReach.hook_reject
 Definition failed_add_modifies_memory_counterexample := DurableReach.failed_add_modifies_memory_counterexample.
 Definition failed_clear_empties_memory_counterexample := DurableReach.failed_clear_empties_memory_counterexample.
 Definition purge_errors_swallowed_example := DurableFail.purge_errors_swallowed_example.
+Definition purge_errors_reported_linear_example := DurableFail.purge_errors_reported_linear_example.
 Definition load_linear_keeps_expired_example := DurableReload.load_linear_keeps_expired_example.
 Definition load_indexed_drops_expired_example := DurableReload.load_indexed_drops_expired_example.
 Definition load_expired_record_in_facts_counterexample := DurableReload.load_expired_record_in_facts_counterexample.
@@ -170,6 +171,7 @@ Print Assumptions hook_reject_leaves_residue_counterexample.
 Print Assumptions failed_add_modifies_memory_counterexample.
 Print Assumptions failed_clear_empties_memory_counterexample.
 Print Assumptions purge_errors_swallowed_example.
+Print Assumptions purge_errors_reported_linear_example.
 Print Assumptions load_linear_keeps_expired_example.
 Print Assumptions load_indexed_drops_expired_example.
 Print Assumptions load_expired_record_in_facts_counterexample.
